@@ -87,6 +87,11 @@ def rejection_table(ctx, names):
         attempt("unknown mode", lambda: Counting(cfg).optimize(good, mode="parallel"))
         attempt("3 weights for 2 objectives", lambda: Counting(cfg).optimize(search.build_task(
             {"vars": [("multiobj", ([-1.0] * 2, [1.0] * 2))], "obj": "multi2", "minmax": "min", "weights": [0.2, 0.3, 0.5]})))
+        if nm in names[:3]:             # the same rejection when the mismatch is detected inside a pool worker (the error must come back as what it is)
+            for mode_ in ("thread", "process"):
+                # (the plain class: a harness-local subclass cannot be pickled into a worker process; the error class is what is checked here)
+                attempt(f"3 weights for 2 objectives ({mode_} mode)", lambda m_=mode_: cls(cfg).optimize(search.build_task(
+                    {"vars": [("multiobj", ([-1.0] * 2, [1.0] * 2))], "obj": "multi2", "minmax": "min", "weights": [0.2, 0.3, 0.5]}), mode=m_, workers=2))
         attempt("weights for a scalar objective", lambda: Counting(cfg).optimize(search.build_task(
             {"vars": [("contmulti", ([-1.0] * 2, [1.0] * 2))], "obj": "sphere", "minmax": "max", "weights": [0.5, 0.5]})))
     # task-level rejections do not depend on the optimizer
